@@ -25,6 +25,7 @@ func main() {
 }
 
 const maxOut = 200
+const maxErr = 12
 
 var slowLimit = 150 * time.Millisecond
 
@@ -38,6 +39,7 @@ func collect(cc *c56.Compiled, in any, vars []any, check func(sofar []emitted) s
 	ctx, cancel := context.WithTimeout(context.Background(), 3*time.Second)
 	defer cancel()
 	it := cc.Code.RunWithContext(ctx, in, vars...)
+	nerr := 0
 	for {
 		v, ok := it.Next()
 		if !ok {
@@ -51,12 +53,147 @@ func collect(cc *c56.Compiled, in any, vars []any, check func(sofar []emitted) s
 			viol = check(vals[:len(vals)-1])
 		}
 		if _, isErr := v.(error); isErr {
-			return vals, "done", viol
+			nerr++
+			if nerr >= maxErr { // an iterator may be advanced after an error; bounded
+				return vals, "truncated", viol
+			}
 		}
 		if len(vals) >= maxOut {
 			return vals, "truncated", viol
 		}
 	}
+}
+
+// step advances one iterator once; it reports done, and a timeout separately
+func step(it gojq.Iter, acc *[]emitted, nerr *int) (done, timeout bool) {
+	w, ok := it.Next()
+	if !ok {
+		return true, false
+	}
+	if err, isErr := w.(error); isErr && (err == context.DeadlineExceeded || err == context.Canceled) {
+		return true, true
+	}
+	*acc = append(*acc, emitted{w, c56.Snap(w)})
+	if _, isErr := w.(error); isErr {
+		*nerr++
+		if *nerr >= maxErr {
+			return true, false
+		}
+	}
+	return len(*acc) >= maxOut, false
+}
+
+// interleave advances two iterators of ONE Code alternately on this goroutine, following [pattern]
+// cyclically: 'A' / 'B' one step, 'a' / 'b' to exhaustion, '!' A until its first error (or 3 steps).
+// Each must yield exactly what it yields alone (consumed the same way, errors included).
+func interleave(cc *c56.Compiled, inA, inB any, vars []any, pattern string) (ra, rb []emitted, status string, panicked string) {
+	defer func() {
+		if r := recover(); r != nil {
+			panicked = fmt.Sprint(r)
+		}
+	}()
+	ctx, cancel := context.WithTimeout(context.Background(), 3*time.Second)
+	defer cancel()
+	itA := cc.Code.RunWithContext(ctx, inA, vars...)
+	itB := cc.Code.RunWithContext(ctx, inB, vars...)
+	doneA, doneB, ea, eb := false, false, 0, 0
+	stepA := func() bool {
+		if doneA {
+			return false
+		}
+		d, to := step(itA, &ra, &ea)
+		doneA = d
+		return to
+	}
+	stepB := func() bool {
+		if doneB {
+			return false
+		}
+		d, to := step(itB, &rb, &eb)
+		doneB = d
+		return to
+	}
+	for round := 0; !(doneA && doneB) && round < 4*maxOut; round++ {
+		for _, ch := range pattern {
+			to := false
+			switch ch {
+			case 'A':
+				to = stepA()
+			case 'B':
+				to = stepB()
+			case 'a':
+				for !doneA && !to {
+					to = stepA()
+				}
+			case 'b':
+				for !doneB && !to {
+					to = stepB()
+				}
+			case '!':
+				for k := 0; k < 3 && !doneA && !to && ea == 0; k++ {
+					to = stepA()
+				}
+			}
+			if to {
+				return ra, rb, "timeout", ""
+			}
+		}
+	}
+	return ra, rb, "done", ""
+}
+
+// cancelled: A's context is cancelled after k steps while B goes on; A must have yielded a prefix of what
+// it yields alone, then the context error, then nothing; B must yield what it yields alone
+func cancelled(cc *c56.Compiled, inA, inB any, vars []any, k int) (ra, rb []emitted, tail []string, status string, panicked string) {
+	defer func() {
+		if r := recover(); r != nil {
+			panicked = fmt.Sprint(r)
+		}
+	}()
+	ctxA, cancelA := context.WithCancel(context.Background())
+	defer cancelA()
+	ctxB, cancelB := context.WithTimeout(context.Background(), 3*time.Second)
+	defer cancelB()
+	itA := cc.Code.RunWithContext(ctxA, inA, vars...)
+	itB := cc.Code.RunWithContext(ctxB, inB, vars...)
+	doneA, doneB, ea, eb := false, false, 0, 0
+	for i := 0; i < k && !doneA; i++ {
+		doneA, _ = step(itA, &ra, &ea)
+		if !doneB {
+			var to bool
+			doneB, to = step(itB, &rb, &eb)
+			if to {
+				return ra, rb, nil, "timeout", ""
+			}
+		}
+	}
+	cancelA()
+	for i := 0; i < 3; i++ { // A after cancellation, B in between
+		w, ok := itA.Next()
+		switch {
+		case !ok:
+			tail = append(tail, "end")
+		case w == context.Canceled:
+			tail = append(tail, "canceled")
+		default:
+			tail = append(tail, "value:"+c56.Snap(w))
+		}
+		if !doneB {
+			var to bool
+			doneB, to = step(itB, &rb, &eb)
+			if to {
+				return ra, rb, tail, "timeout", ""
+			}
+		}
+	}
+	for !doneB {
+		var to bool
+		doneB, to = step(itB, &rb, &eb)
+		if to {
+			return ra, rb, tail, "timeout", ""
+		}
+	}
+	return ra, rb, tail, "done", ""
 }
 
 func recheck(what string, vals []emitted) string {
@@ -222,36 +359,46 @@ func history(c *Ctx, j c56.Job, mode int) (viol string, digest string, skipped s
 		otherText = c56.Inputs[(len(j.Program)+mode)%len(c56.Inputs)]
 	}
 	other := c56.Alias(dec(otherText), mode)
-	ctx, cancel := context.WithTimeout(context.Background(), 3*time.Second)
-	defer cancel()
-	itA := cc.Code.RunWithContext(ctx, in.Value, vars...)
-	itB := cc.Code.RunWithContext(ctx, other.Value, vars...)
-	var ra []emitted
-	doneA, doneB := false, false
-	for !doneA {
-		if !doneB {
-			for k := 0; k < 2; k++ {
-				w, ok := itB.Next()
-				if _, isErr := w.(error); !ok || isErr {
-					doneB = true
-					break
-				}
-			}
+	// B alone on this (warm) Code, consumed the same way
+	rbs, stbs, _ := collect(cc, other.Value, vars, nil)
+	if stbs == "timeout" {
+		return "", digest, "timeout"
+	}
+	patterns := [][]string{{"BBA", "AB", "AABB", "bA", "!bA", "ABB"}, {"AB", "!bA"}, {"BBA", "AABB"}}[mode%3]
+	for _, pat := range patterns {
+		ra, rb, sti, pan := interleave(cc, in.Value, other.Value, vars, pat)
+		if pan != "" {
+			return "two iterators of one Code advanced alternately (pattern " + pat + "): panic: " + pan, digest, ""
 		}
-		w, ok := itA.Next()
-		if !ok {
-			break
-		}
-		if err, isErr := w.(error); isErr && (err == context.DeadlineExceeded || err == context.Canceled) {
+		if sti == "timeout" {
 			return "", digest, "timeout"
 		}
-		ra = append(ra, emitted{w, c56.Snap(w)})
-		if _, isErr := w.(error); isErr || len(ra) >= maxOut {
-			doneA = true
+		if v = same("iterator A advanced alternately with iterator B (pattern "+pat+") vs A alone", snapsOf(r1), snapsOf(ra)); v != "" {
+			return v, digest, ""
+		}
+		if v = same("iterator B advanced alternately with iterator A (pattern "+pat+") vs B alone", snapsOf(rbs), snapsOf(rb)); v != "" {
+			return v, digest, ""
 		}
 	}
-	if v = same("run interleaved with a run on another input vs run 1", snapsOf(r1), snapsOf(ra)); v != "" {
-		return v, digest, ""
+	// the same with A's context cancelled mid-run
+	{
+		k := len(r1) / 2
+		ra, rb, tail, stc, pan := cancelled(cc, in.Value, other.Value, vars, k)
+		if pan != "" {
+			return "iterator A cancelled mid-run while iterator B goes on: panic: " + pan, digest, ""
+		}
+		if stc == "timeout" {
+			return "", digest, "timeout"
+		}
+		if len(ra) > len(r1) || c56.FirstDiff(snapsOf(r1)[:len(ra)], snapsOf(ra)) >= 0 {
+			return "iterator A before its cancellation is not a prefix of A alone: " + clip(strings.Join(snapsOf(ra), " ")), digest, ""
+		}
+		if k < len(r1) && !(len(tail) == 3 && (tail[0] == "canceled" || tail[0] == "end") && tail[1] == "end" && tail[2] == "end") {
+			return "iterator A after cancellation yields " + clip(strings.Join(tail, ", ")) + " (expected the context error, then the end)", digest, ""
+		}
+		if v = same("iterator B while iterator A is cancelled mid-run vs B alone", snapsOf(rbs), snapsOf(rb)); v != "" {
+			return v, digest, ""
+		}
 	}
 	if v = recheck("after interleaved runs", r1); v != "" {
 		return v, digest, ""
@@ -297,7 +444,7 @@ func history(c *Ctx, j c56.Job, mode int) (viol string, digest string, skipped s
 			return v, digest, ""
 		}
 	}
-	for _, rs := range [][]emitted{r1, r2, r3, ra, r4, r5} {
+	for _, rs := range [][]emitted{r1, r2, r3, rbs, r4, r5} {
 		if v = recheck("at the end of the history", rs); v != "" {
 			return v, digest, ""
 		}
